@@ -6,6 +6,7 @@ import (
 	"fmt"
 	"io"
 	"os"
+	"regexp"
 	"runtime/debug"
 	"sort"
 	"strings"
@@ -649,10 +650,17 @@ func (o observed) evictedNow(i int, key string) bool {
 	return false
 }
 
-// mentionsReplica: the message names the replica somewhere ("Backend A
-// returned inconsistent results ...", "... from backend A to ...").
-func mentionsReplica(err error, label string) bool {
-	return strings.Contains(strings.ToLower(status.Convert(err).Message()), "backend "+strings.ToLower(label))
+// namesReplica: the message names the replica somewhere ("Backend A: ...",
+// "Backend A returned inconsistent results ...", "... from backend A to
+// ...", "replica A ..."). The property demands an error NAMING the replica;
+// the wording and the position of the name are the implementation's.
+var replicaNameRE = [2]*regexp.Regexp{
+	regexp.MustCompile(`(?i)\b(backend|replica)[\s_-]*a\b`),
+	regexp.MustCompile(`(?i)\b(backend|replica)[\s_-]*b\b`),
+}
+
+func namesReplica(err error, i int) bool {
+	return replicaNameRE[i].MatchString(status.Convert(err).Message())
 }
 
 func (o observed) String() string {
@@ -663,14 +671,12 @@ func (o observed) String() string {
 	return fmt.Sprintf("calls=%v faultAtFirstCall=%v anyFault=%v vouchedButNotFound=[A:%d B:%d]", parts, o.firstFault, o.anyFault, len(o.incons[0]), len(o.incons[1]))
 }
 
-// carriesInjected: the error is (a wrapping of) one of the faults that
-// fired during this op.
+// carriesInjected: the error is recognisably (a wrapping of) one of the
+// faults that fired during this op. Never demanded (the property fixes
+// neither the code nor the text of the surfaced error); only used to tell
+// an injected failure from an inconsistency report when both happened.
 func carriesInjected(err error, o observed) bool {
 	return o.codes[status.Code(err)] && strings.Contains(status.Convert(err).Message(), "injected ")
-}
-
-func namesReplica(err error, label string) bool {
-	return strings.HasPrefix(status.Convert(err).Message(), "Backend "+label+": ")
 }
 
 var recMirrored = vstats.New("TestC11Mirrored")
@@ -778,10 +784,15 @@ func mirroredProperty(t *testing.T, rec *vstats.Recorder) {
 			return s
 		}
 
-		prevFirst := -1 // replica consulted first by the previous round-advancing call
+		// "the replica consulted first alternates": asserted between two
+		// reads (Get / GetFromComposite) with no other operation between
+		// them. Whether GetCapabilities, Put or FindMissing take part in the
+		// rotation is not fixed by the property; after one of those the
+		// next read may start anywhere.
+		prevFirst := -1 // replica consulted first by the directly preceding read
 		alternate := func(what string, first int) {
 			if prevFirst >= 0 && first == prevFirst {
-				t.Fatalf("%s consulted replica %s first, and so did the previous read: the replica consulted first does not alternate", what, p.r[first].label)
+				t.Fatalf("%s consulted replica %s first, and so did the directly preceding read: the replica consulted first does not alternate", what, p.r[first].label)
 			}
 			prevFirst = first
 		}
@@ -802,21 +813,20 @@ func mirroredProperty(t *testing.T, rec *vstats.Recorder) {
 			switch kind {
 			case "GetCapabilities":
 				c.Add(kind)
-				_, err := ba.GetCapabilities(ctx, digest.EmptyInstanceName)
+				// Not part of the property (only generated because it may
+				// take part in the rotation): nothing is asserted but the
+				// absence of a panic.
+				var err error
+				noPanic(t, func() string { return "GetCapabilities" }, func() {
+					_, err = ba.GetCapabilities(ctx, digest.EmptyInstanceName)
+				})
 				o := p.observe(m, false)
 				obs = o
+				prevFirst = -1
 				if err != nil {
-					t.Fatalf("GetCapabilities failed: %v", err)
+					c.Class("getcapabilities_error")
 				}
-				if len(o.calls) != 1 || o.calls[0].Op != "GetCapabilities" {
-					t.Fatalf("GetCapabilities: replicas saw %v", o)
-				}
-				first := 0
-				if o.calls[0].Backend == "B" {
-					first = 1
-				}
-				alternate("GetCapabilities", first)
-				rendered = append(rendered, "GetCapabilities@"+p.r[first].label)
+				rendered = append(rendered, fmt.Sprintf("GetCapabilities->%v", err))
 
 			case "Get", "GetFromComposite":
 				j := rapid.IntRange(0, len(pool)-1).Draw(t, "obj")
@@ -850,15 +860,26 @@ func mirroredProperty(t *testing.T, rec *vstats.Recorder) {
 				obs = o
 				what := fmt.Sprintf("%s(object %d, %s) placement before A=%v B=%v -> %d bytes, %v; %s; A->B %s, B->A %s; A %s, B %s",
 					kind, j, methodNames[method], before[j][0], before[j][1], len(got), err, o, cfgAB, cfgBA, incons[0], incons[1])
-				if len(o.calls) == 0 || o.calls[0].Op != kind {
-					t.Fatalf("%s: first replica call is not the read itself", what)
-				}
-				F := 0
-				if o.calls[0].Backend == "B" {
-					F = 1
+				// The replica consulted first is the one that saw the first
+				// call of this read (whatever call the implementation uses
+				// to consult it).
+				F, consulted := 0, false
+				for _, cl := range o.calls {
+					if cl.Op != "GetCapabilities" {
+						consulted = true
+						if cl.Backend == "B" {
+							F = 1
+						}
+						break
+					}
 				}
 				S := 1 - F
-				alternate(what, F)
+				if consulted {
+					alternate(what, F)
+				} else {
+					c.Class("get_without_replica_call")
+					prevFirst = -1
+				}
 				held := before[j][0] || before[j][1]
 				// heldThroughout: some replica held the object when the
 				// read started and did not evict it while the read ran
@@ -881,7 +902,7 @@ func mirroredProperty(t *testing.T, rec *vstats.Recorder) {
 					// (a first replica whose stale existence cache vouches
 					// for the object tells a double-checking replicator that
 					// nothing needs to be copied: repair cannot be demanded)
-					if copiesInto(F, obj) && !p.r[F].shaper.stale[key(obj)] && !has(F, obj) {
+					if consulted && copiesInto(F, obj) && !p.r[F].shaper.stale[key(obj)] && !has(F, obj) {
 						t.Fatalf("%s: read succeeded but the replica consulted first (%s) still lacks the object: no read repair", what, p.r[F].label)
 					}
 				case code == codes.NotFound:
@@ -908,35 +929,49 @@ func mirroredProperty(t *testing.T, rec *vstats.Recorder) {
 					// again and the read-back from the first replica fails.
 					excused := o.inconsistent() || (remembers[F] && p.r[F].shaper.wasEvicted(key(obj)))
 					if !o.any() && !excused {
-						t.Fatalf("%s: error although no failure was injected during this call and both replicas behaved consistently", what)
-					}
-					if !carriesInjected(err, o) {
-						if !excused {
-							t.Fatalf("%s: the error is not (a wrapping of) an injected failure", what)
+						// "A read returns the object whenever at least one
+						// replica holds it". What a read of an object that
+						// neither replica holds fails with is not fixed by
+						// the property (NOT_FOUND today): only counted.
+						if heldThroughout {
+							t.Fatalf("%s: error although a replica holds the object, no failure was injected during this call and both replicas behaved consistently", what)
 						}
+						c.Class("get_absent_other_error")
+					}
+					// Which error: the property demands "an error naming the
+					// replica", never NOT_FOUND (this branch), never success.
+					// Code and text of the surfaced error are the
+					// implementation's (today: the replica's own error behind
+					// a "Backend X: " prefix), so neither is asserted. When
+					// the replicas were also inconsistent during this read
+					// the error may be the report of that instead; the naming
+					// clause is then asserted only if the error is
+					// recognisably the injected one.
+					injected := carriesInjected(err, o)
+					if excused && !injected {
 						switch {
-						case namesReplica(err, p.r[F].label):
+						case namesReplica(err, F):
 							c.Class("get_inconsistency_error_named_first")
-						case namesReplica(err, p.r[S].label):
+						case namesReplica(err, S):
 							c.Class("get_inconsistency_error_named_second")
 						default:
 							c.Class("get_inconsistency_error_unnamed")
 						}
 					}
+					ffF, ffS := o.firstFault[F], o.contacted[S] && o.firstFault[S]
 					switch {
-					case !carriesInjected(err, o):
-					case o.firstFault[F]:
-						if !namesReplica(err, p.r[F].label) {
-							t.Fatalf("%s: failure of the replica consulted first must be reported as \"Backend %s: ...\"", what, p.r[F].label)
+					case excused && !injected:
+					case ffF || ffS:
+						// (today the second replica is not consulted after a
+						// failure of the first; a version that consults both
+						// may report either failure)
+						if !((ffF && namesReplica(err, F)) || (ffS && namesReplica(err, S))) {
+							t.Fatalf("%s: the error does not name the replica that failed (consulted first: %s, its first contact failed: %v; second replica's first contact failed: %v)", what, p.r[F].label, ffF, ffS)
 						}
-						if o.contacted[S] {
-							t.Fatalf("%s: the other replica was consulted after a non-NOT_FOUND failure", what)
+						if ffF && o.contacted[S] {
+							c.Class("get_second_consulted_after_first_failed")
 						}
-					case o.contacted[S] && o.firstFault[S]:
-						if !namesReplica(err, p.r[S].label) {
-							t.Fatalf("%s: failure of the replica consulted second must be reported as \"Backend %s: ...\"", what, p.r[S].label)
-						}
-					default:
+					case o.any():
 						// Failure while writing the repaired copy (or a
 						// later redundant call). The code attributes
 						// these to the source replica, and when the
@@ -944,9 +979,9 @@ func mirroredProperty(t *testing.T, rec *vstats.Recorder) {
 						// error comes out of Close() unprefixed; only
 						// counted, see verif.json.
 						switch {
-						case namesReplica(err, p.r[F].label):
+						case namesReplica(err, F):
 							c.Class("repair_failure_named_sink")
-						case namesReplica(err, p.r[S].label):
+						case namesReplica(err, S):
 							c.Class("repair_failure_named_source")
 						default:
 							c.Class("repair_failure_unnamed")
@@ -1045,10 +1080,12 @@ func mirroredProperty(t *testing.T, rec *vstats.Recorder) {
 						if !o.any() {
 							t.Fatalf("%s: error although no failure was injected", what)
 						}
+						// (code and text of the surfaced error are not fixed by
+						// the property: only counted)
 						if !carriesInjected(err, o) {
-							t.Fatalf("%s: the error is not (a wrapping of) an injected failure", what)
+							c.Class("put_fault_error_recoded")
 						}
-						if !((o.anyFault[0] && namesReplica(err, "A")) || (o.anyFault[1] && namesReplica(err, "B"))) {
+						if !((o.anyFault[0] && namesReplica(err, 0)) || (o.anyFault[1] && namesReplica(err, 1))) {
 							t.Fatalf("%s: the error does not name the replica that failed", what)
 						}
 						c.Class("put_replica_fault")
@@ -1161,31 +1198,25 @@ func mirroredProperty(t *testing.T, rec *vstats.Recorder) {
 					if !o.any() && !o.inconsistent() {
 						t.Fatalf("%s: error although no failure was injected and both replicas behaved consistently", what)
 					}
-					if !carriesInjected(err, o) {
-						// Not an injected failure: then it must be the report
-						// of the inconsistency, naming the replica that
-						// answered NOT_FOUND for an object it vouched for.
-						if !o.inconsistent() {
-							t.Fatalf("%s: the error is not (a wrapping of) an injected failure", what)
-						}
-						if !((len(o.incons[0]) > 0 && mentionsReplica(err, "A")) || (len(o.incons[1]) > 0 && mentionsReplica(err, "B"))) {
-							t.Fatalf("%s: the error does not name the inconsistent replica (the one that answered NOT_FOUND for an object it reported present)", what)
-						}
+					// The error must name a replica that failed during this
+					// call: one whose call failed with an injected error, or
+					// one that answered NOT_FOUND for an object it had
+					// reported present. Code (other than NOT_FOUND), wording
+					// and position of the name are the implementation's.
+					failed := [2]bool{o.anyFault[0] || len(o.incons[0]) > 0, o.anyFault[1] || len(o.incons[1]) > 0}
+					if !((failed[0] && namesReplica(err, 0)) || (failed[1] && namesReplica(err, 1))) {
+						t.Fatalf("%s: the error does not name the replica that failed (failed during this call: A=%v B=%v)", what, failed[0], failed[1])
+					}
+					switch {
+					case !carriesInjected(err, o) && o.inconsistent():
 						for i, r := range p.r {
-							if len(o.incons[i]) > 0 && mentionsReplica(err, r.label) {
+							if len(o.incons[i]) > 0 && namesReplica(err, i) {
 								c.Class("find_inconsistency_reported_" + r.label)
 							}
 						}
-					} else if o.firstFault[0] || o.firstFault[1] {
-						if !((o.firstFault[0] && namesReplica(err, "A")) || (o.firstFault[1] && namesReplica(err, "B"))) {
-							t.Fatalf("%s: the error does not name the replica whose FindMissing failed", what)
-						}
+					case o.firstFault[0] || o.firstFault[1]:
 						c.Class("find_verdict_fault")
-					} else {
-						msg := strings.ToLower(status.Convert(err).Message())
-						if !((o.anyFault[0] && strings.Contains(msg, "backend a")) || (o.anyFault[1] && strings.Contains(msg, "backend b"))) {
-							t.Fatalf("%s: the error does not name the replica that failed", what)
-						}
+					default:
 						c.Class("find_sync_fault")
 					}
 				}
